@@ -318,6 +318,10 @@ def _lrepr_py_tuple(o: tuple, **kwargs: Unpack[PrintSettings]) -> str:
 
 @lrepr.register(complex)
 def _lrepr_complex(o: complex, **_) -> str:
+    if o.real == 0:
+        # Only pure imaginary numbers have a literal; drop the (possibly negative) zero
+        # real part which `repr` would otherwise render as `(-0-1j)`
+        return repr(complex(0.0, o.imag)).upper()
     return repr(o).upper()
 
 
